@@ -96,7 +96,7 @@ def runs_for(tier):
              configs=[(), (1,), (2,), (4, 3)], ext=[] if q else [U5353], alone=[],
              ops=["SetMode", "SetServer", "Release"] + ([] if q else ["ExtBind", "Setup"])),
         # instances used directly; the port-0 fallback
-        dict(tag="_direct", started=True, maxops=4 if q else 5,
+        dict(tag="_direct", started=True, maxops=4 if q else 6,
              world=mk_world(["regular@8080", "reverse:https://a.example@0", "dns@5353", "regular@127.0.0.1:8080",
                              "reverse:udp://a.example:9@127.0.0.1:8083"], fp6=True),
              configs=[(1,)] if q else [(1,), (2,)], ext=[U5353], alone=[2, 3, 4] if q else [2, 3, 4, 5],
@@ -146,9 +146,31 @@ class Check(core.PropertyCheck):
     SPEC_DIR = "ModeServers"
     MODEL = "ModeServers"
     MON = "Mon_ModeServers"
-    REQUIRED_WITNESSES = ()
+    REQUIRED_WITNESSES = (
+        "spec_parsed", "spec_refused", "spec_unknown_mode", "spec_bad_port", "spec_unexpected_configuration",
+        "spec_other_mode_class", "spec_custom_host", "spec_default_port", "spec_with_configuration",
+        "set_invalid_mode", "set_duplicate_refused", "set_mode_running", "set_mode_not_running", "set_server", "running",
+        "setup", "quiescent", "two_instances", "instance_kept", "mode_kept", "mode_removed", "server_off",
+        "failed_instance_listed", "one_fails_others_run", "update_true", "update_false", "changed",
+        "update_in_progress", "option_changed_during_update", "port_reused_after_stop", "port_held_by_other_process",
+        "port_held_by_own_instance", "bind_ok", "bind_EADDRINUSE", "bind_EACCES", "bind_EADDRNOTAVAIL", "bind_EAI",
+        "dual_transport", "port_zero", "explicit_host", "direct_start", "direct_start_failed", "direct_stop",
+        "start_after_fallback")
     REQUIRED_ACTIONS = ()
-    ASSUMPTIONS = ()
+    ASSUMPTIONS = (
+        "the operating system is the fake of lib/vf/modenet.py: asyncio.start_server, mitmproxy_rs.udp.start_udp_server, "
+        "the class name mitmproxy_rs.udp.UdpServer and mode_servers.get_free_port are replaced; bind conflicts follow the "
+        "rules of a dual-family Linux host (same transport, port, family and equal or wildcard address collide; ports "
+        "below 1024 need root; UDP bind failures are RuntimeError as mitmproxy_rs reports them)",
+        "spec texts are built from tokens (words, canonical decimal numbers below 10^6, ':' and '@'); the monitor judges "
+        "only specs with at most one '@' that is neither first nor last; the words '//host' of the documented "
+        "http[s]://host[:port] form are constructed by the harness (world record), not recognised by it",
+        "listen hosts are IP literals or empty (no name resolution); '[::1]' (brackets are kept by the parser) is not "
+        "an address; local, tun, wireguard instances (mitmproxy_rs) are parsed at most, never started",
+        "the harness settles the loop after every operation; a start can be blocked (slow specs) so that update tasks "
+        "overlap; ServerInstance.start is only called on a stopped instance and stop on a running one (the code asserts)",
+        "instances are identified by first-seen order (gen); hosts of listen addresses are compared as text",
+    )
 
     def mon_constants(self, tier):
         return {}
@@ -222,7 +244,7 @@ class Check(core.PropertyCheck):
             r = m.run
             g = m.graph
             behs = g.edge_cover(ctx.rng, max_len=80, tail=10)
-            behs += g.random_walks(ctx.rng, 100 if ctx.quick else 3000, 60)
+            behs += g.random_walks(ctx.rng, 40 if ctx.quick else 3000, 60)
             world = dict(r["world"])
             for b in behs:
                 stopped = bool(b[-1][2].get("mon", {}).get("bad"))
@@ -242,7 +264,7 @@ class Check(core.PropertyCheck):
                 if pred is not None:
                     pred = list(core.tlaval.to_py(b[0][2].get("obs", ()))) + pred
                 yield core.Scenario({"world": world, "ops": ops}, predicted=pred, source="model")
-                if len(ops) > 1 and ctx.rng.random() < (0.25 if ctx.quick else 0.5):
+                if len(ops) > 1 and ctx.rng.random() < (0.15 if ctx.quick else 0.5):
                     # the same behaviour under asyncio.eager_task_factory (what Master.run installs): monitor only
                     yield core.Scenario({"world": dict(world, eager=True), "ops": ops}, source="model-eager")
         rng = random.Random(ctx.seed + 202)
